@@ -3,39 +3,73 @@ from . import COMMON_TB, NOTE
 PROP = {
     "modules": ["Proofs.C05", "Proofs.C05E2E", "Proofs.C05Spell"],
     "streams": [{"name": "scan"}, {"name": "val", "shards": 2}, {"name": "verbatim"}],
-    "rule": "scan: every string of length<=5 (quick) / 6 (thorough) over {{ }} % - \" space newline a, harvested test "
+    "rule": "scan (always the DEFAULT delimiters, start line 0..3): every string of length<=5 (quick) / 6 (thorough) over "
+            "{ } % - \" space newline a, harvested test "
             "templates and their mutants, random bytes / UTF-8 / delimiter-dense sources up to 64 KiB; a case is "
-            "non-trivial when it yields more than one token; distinct by case line",
+            "non-trivial when it yields more than one token; distinct by case line. val: the value universe and random value "
+            "trees, encoded, realised as Go values, reified and re-encoded (a codec round trip; nothing is printed). verbatim "
+            "(default delimiters): random templates of five shapes in turn - text+raw block+text, text+comment block+text, "
+            "several raw/comment blocks, a delimiter-free source, `[{{ s }}]` with s a string / []byte / drop of a string "
+            "holding tag-like text, arbitrary bytes and HTML/URL metacharacters - with bodies assembled from tag-like bits "
+            "(objects, tags, trim markers, lone delimiters, syntax errors); a raw/comment body whose opening and closing "
+            "delimiters do not balance is stripped of all delimiters before use, so bodies with an unclosed opening delimiter "
+            "occur only in four fixed inputs (the recorded deviation, see Limits) and where the counts balance in the wrong order",
     "trusted_base": COMMON_TB,
-    "assumptions": ["the model's Scan/tokenRe describe parser/scanner.go: checked by the scan stream on every run"],
+    "assumptions": ["the model's Scan/tokenRe describe parser/scanner.go: checked by the scan stream on every run under the default "
+                    "delimiters only; under custom delimiters the token pattern is tied by the rex stream (first match of the real "
+                    "matcher) and Scan itself through rendering by the delims stream of C19",
+                    "the property is read as stated, so a raw/comment body with an opening delimiter that is not closed inside the "
+                    "body is a deviation of the code (known_findings K-C05-raw-unclosed-delimiter, K-C05-comment-unclosed-delimiter), "
+                    "not an exception of the property"],
 }
 
 TEXT = {
     "text": ('Theorems for every delimiter set, source and start line: token sources concatenate to the input (scan_partition), '
               'located tokens carry start line + preceding newlines (scan_lines, scan_line_at), a source in which no delimiter '
               'opens is one text token (scan_no_open_delim). Render level: a text node renders to exactly its bytes '
-              '(text_renders_itself), a raw body is emitted as the concatenation of its token sources whatever it contains '
-              '(raw_verbatim, raw_body_kept), a comment body contributes nothing and is never parsed as an expression '
+              '(text_renders_itself), a raw node writes the concatenation of its slices (raw_verbatim) and inside a raw block the '
+              'parser keeps the source of every token that is not the endraw tag, whatever it is (raw_body_kept), inside a comment '
+              'block the parser drops every token that is not the endcomment tag without handing it to the expression checker '
               '(comment_body_skipped), a string value is written as one write of its bytes without escaping (string_value_exact, '
               'bytes/drop variants), nil prints nothing. End to end, about the whole pipeline `run` (tokenizer, block parser, '
               'compiler, renderer, fault-free writer) for every value layer, configuration, file system, start line and '
               'environment: a source in which neither configured opening delimiter occurs renders to exactly itself, the empty '
               'source included (source_without_open_delim_renders_itself); `run` is the tokenizer followed by `runTokens` '
-              '(run_eq_runTokens in Proofs.E2ERun), and on a token list raw-tag, body, endraw-tag `runTokens` returns exactly the '
-              'concatenated sources of the body tokens (raw_block_renders_body_sources), on comment-tag, body, endcomment-tag it '
-              'returns the empty output and never an error whatever the body tokens are (comment_block_renders_nothing), and '
-              'deleting a whole comment block after any prefix the parser leaves outside comment/raw changes nothing '
-              '(comment_block_erased); the token-level statements assume that no object token of the body has arguments outside '
-              'the expression-lexer model (negative-zero literal; the model answers `unmodelled` there). From source bytes, for every '
-              'delimiter set satisfying GoodDelims and every body satisfying the decidable predicate Clean (C19, scan_spell): the '
-              'source `TL raw TR body TL endraw TR` renders to exactly the bytes of the body as written '
-              '(raw_source_renders_body) and `TL comment TR body TL endcomment TR` renders to nothing, never an error '
-              '(comment_source_renders_nothing). Ties: the tokenizer model is compared with parser.Scan on exhaustive '
-              'small strings and random/64KiB inputs; printed values with the real writeObject; the `verbatim` stream renders '
-              'text / raw / comment / string-value templates on the real engine and checks byte equality with the source pieces; '
-              'the partition/line oracle is evaluated on the real tokens.'),
+              '(run_eq_runTokens in Proofs.E2ERun), and on a token list raw-tag, body, endraw-tag whose body holds no endraw tag '
+              '`runTokens` returns exactly the concatenated sources of the body tokens (raw_block_renders_body_sources), on '
+              'comment-tag, body, endcomment-tag whose body holds no endcomment tag it returns the empty output and never an error '
+              'whatever else the body tokens are - objects that are not expressions, unknown or unbalanced tags '
+              '(comment_block_renders_nothing), and deleting such a comment block after any prefix the parser leaves outside '
+              'comment/raw changes nothing (comment_block_erased). From source bytes, for every delimiter set satisfying GoodDelims '
+              'and every item list `TL raw TR`, body, `TL endraw TR` satisfying the decidable predicate Clean (C19, scan_spell '
+              'reads a Clean spelling back: the body is a sequence of complete objects and tags, each closed by the first closing '
+              'delimiter after its opening, and of texts inside which no opening delimiter begins), the raw tag written without '
+              'left hyphen and the end tag without right hyphen, neither with arguments, the body without an endraw tag: the source '
+              'renders to exactly the bytes of the body as written (raw_source_renders_body); under the same conditions '
+              '`TL comment TR body TL endcomment TR` renders to nothing, never an error (comment_source_renders_nothing). All '
+              'token-level and source-level raw/comment statements assume that no object of the body has arguments outside the '
+              'expression-lexer model (negative-zero literal; the model answers `unmodelled` there). Ties: the tokenizer model '
+              'is compared with parser.Scan, under the default delimiters, on exhaustive small strings and random/64KiB inputs, '
+              'and the partition/line oracle is evaluated on the real tokens; `val` round-trips the value encoding between '
+              'harness and model; the `verbatim` stream renders text / raw / comment / string-value templates on the real engine '
+              '(default delimiters), compares them with the model and checks byte equality with the source pieces - its '
+              'string-value cases (string, []byte, drop of a string) are where printing by the real writeObject is exercised '
+              'under this property.'),
     "design_ref": 'DESIGN.md 6 C05',
-    "note": NOTE + (""),
+    "note": NOTE + ('The property is FALSE on the real engine in two recorded places, not repaired at this commit '
+              '(known_findings.json K-C05-raw-unclosed-delimiter, K-C05-comment-unclosed-delimiter; DESIGN 7.1b): the tokenizer '
+              'runs before the block parser knows it is inside a raw or comment block, so an opening delimiter in the body that is '
+              'not closed inside the body takes the closing delimiter of the end tag ("{% raw %}{% b {% endraw %}" is the raw tag '
+              'followed by one tag named b) and the block is reported as unterminated instead of being emitted as written / '
+              'contributing nothing; `./check C05` prints these as KNOWN-FINDING while they reproduce. The theorems do not '
+              'contradict this: the render-level and token-level ones speak about nodes and token lists, and the byte-level ones '
+              'exclude such bodies through `Clean` (complete objects and tags closed by the first closer, no opening delimiter '
+              'beginning inside a text) - a sufficient condition: every body with an opening delimiter inside a text '
+              'is left out, also where the code emits it correctly. The verbatim generator avoids these bodies (delimiters are stripped from a body whose openers and closers do '
+              'not balance) except four fixed inputs and balanced-in-the-wrong-order bodies, whose failures are classified by asking '
+              'the real tokenizer whether body + end tag still delivers the end tag. The source-level raw/comment theorems cover '
+              '`{% raw -%}`/`{%- endraw %}` but not a left hyphen on the raw/comment tag or a right hyphen on the end tag. Scan is '
+              'compared with the model under the default delimiters only (custom delimiters: rex, and delims of C19).'),
     "technique": ('Lean 4 proof (induction on the FindAll loop, generic in the regexp; render-tree lemmas) + model/implementation '
               'correspondence + verbatim oracle on the implementation'),
 }
